@@ -13,6 +13,7 @@ typedef struct Set_TableNode Node_t;
 typedef struct Tab_Iterator_L_0_R TIt_t;
 typedef struct Set_Iterator_L_0_R SIt_t;
 struct GT { unsigned long n, buckets, idx; };
+#define B_MINB 1UL   /* abstract minimum bucket count (16 in the real table): keeps the bounded iteration short */
 #define GTP(t) ((struct GT *)(t))
 
 void *vf_atomic_load_ptr(void **p, int order, int site) {
@@ -31,6 +32,30 @@ TIt_t *Tab_Iterator_L_0_R_op_inc(TIt_t *a) {
 }
 TIt_t *Tab_Iterator_L_0_R_op_assign__Iterator_L_0_RR(TIt_t *a, TIt_t *b) { *a = *b; return a; }
 TIt_t *Tab_Iterator_L_0_R_op_assign__Iterator_L_0_RR_574265(TIt_t *a, TIt_t *b) { *a = *b; return a; }
+typedef struct Tab_Iterator_L_1_R TCIt_t;
+_Bool Tab_Iterator_L_1_R_op_bool(TCIt_t *a) { return a->_table != 0 && a->_index < GTP(a->_table)->buckets; }
+_Bool Tab_Iterator_L_1_R_op_eq(TCIt_t *a, TCIt_t b) { return a->_index == b._index; }
+TCIt_t *Tab_Iterator_L_1_R_op_inc(TCIt_t *a) {
+  __CPROVER_assert(a->_table != 0 && a->_index < GTP(a->_table)->n, "K4 C18 table iterator advanced only while it designates an element");
+  a->_index++;
+  if (a->_index >= GTP(a->_table)->n) a->_index = GTP(a->_table)->buckets;
+  return a;
+}
+TCIt_t *Tab_Iterator_L_1_R_op_assign__Iterator_L_1_RR(TCIt_t *a, TCIt_t *b) { *a = *b; return a; }
+static unsigned long b_value;
+unsigned long *Tab_Iterator_L_1_R_op_star(TCIt_t *a) {
+  __CPROVER_assert(a->_table != 0 && a->_index < GTP(a->_table)->n, "K4 C18 only an iterator that designates an element is dereferenced");
+  return &b_value;
+}
+/* the non-growing fixed table: a table of `buckets` buckets takes at most `buckets` elements */
+static unsigned b_emplace_failed;
+static unsigned long vf_bit_ceil(unsigned long n) { unsigned long b = 1; for (unsigned i = 0; i < 8; ++i) if (b < n) b <<= 1; return b; }
+void Tab_ctor__u64(struct Tab *t, unsigned long min_bucket_count) { GTP(t)->n = 0; GTP(t)->idx = 0; GTP(t)->buckets = vf_bit_ceil(min_bucket_count < B_MINB ? B_MINB : min_bucket_count); }
+struct std_pair_L_iterator_bool_R Tab_emplace__const_unsigned_longRef_x_void(struct Tab *t, unsigned long *key) {
+  struct std_pair_L_iterator_bool_R r;
+  if (GTP(t)->n < GTP(t)->buckets) { GTP(t)->n++; r.second = 1; } else { b_emplace_failed++; r.second = 0; }
+  return r;
+}
 size_t Tab_bucket_count(struct Tab *t) { return GTP(t)->buckets; }
 size_t Tab_size(struct Tab *t) { return GTP(t)->n; }
 
@@ -38,15 +63,15 @@ static unsigned long b_total;
 static unsigned b_len;
 /* chain of 1..3 tables; `for_size`: the real chain invariant (every non-last table is full, except a default-constructed
  * placeholder head: 16 buckets, 0 elements); otherwise up to 2 elements per table, any emptiness pattern */
-static void b_build(Set_t *s, _Bool for_size) {
+static void b_build(Set_t *s, int for_size) {
   b_len = 1 + nondet_uint() % 3; b_total = 0;
   Node_t *nodes[3]; nodes[0] = &s->_head;
   for (unsigned k = 1; k < b_len; ++k) nodes[k] = (Node_t *)malloc(sizeof(Node_t));
   for (unsigned k = 0; k < b_len; ++k) {
     struct GT *g = GTP(&nodes[k]->table);
-    g->idx = k; g->buckets = 16UL << k;
+    g->idx = k; g->buckets = (for_size == 2 ? B_MINB : 16UL) << k;
     unsigned long n = nondet_u64();
-    if (for_size) {
+    if (for_size) {   /* 1: real bucket counts (no element iteration); 2: small abstract bucket counts (copy harness iterates) */
       _Bool last = (k + 1 == b_len);
       _Bool placeholder = (k == 0 && nondet_bool());
       if (placeholder) n = 0; else if (!last) n = g->buckets; else __CPROVER_assume(n <= g->buckets);
@@ -74,6 +99,15 @@ void h_iterate_bounded(void) {
 void h_size_bounded(void) {
   Set_t s; b_build(&s, 1);
   __CPROVER_assert(Set_size(&s) == b_total, "K1 C18.size equals the number of distinct elements held");
+  __CPROVER_assert(0, "VF_VACUITY_TWIN lemma reachable (must fail)");
+}
+/* the copy constructor holds exactly the source's elements: none lost because the copy's single table was sized too small */
+void h_copy_bounded(void) {
+  Set_t s; b_build(&s, 2);
+  Set_t copy;
+  Set_ctor__IdentityKeyExtractor_RR(&copy, &s);
+  __CPROVER_assert(b_emplace_failed == 0, "K1 C18.copy no element of the source is dropped by the copy (the copy's table has room for all of them)");
+  __CPROVER_assert(GTP(&copy._head.table)->n == b_total && copy._head.next == 0, "K1 C18.copy the copy holds exactly as many elements as the source");
   __CPROVER_assert(0, "VF_VACUITY_TWIN lemma reachable (must fail)");
 }
 #endif
